@@ -308,7 +308,11 @@ def gen_c14_session(seed: int, index: int, ctx: GenCtx, faulty: bool, max_ops: i
                 op["fault"] = f
                 # a probe on state the faulted operation touched follows within two operations
                 if rng.random() < 0.8:
-                    b.single(ccid if ccid in ctx.info else cid, _s1(rng, policy), keep=False)
+                    probe = b.single(ccid if ccid in ctx.info else cid, _s1(rng, policy), keep=False)
+                    if rng.random() < 0.4:
+                        # bounded progress after faults: this operation runs under the call-event
+                        # counter and must stay within 10x the reference's step count
+                        probe["trace"] = "count"
     return {"ops": b.ops, "hashseed": hashseed, "index": index, "faulty": faulty, "policy": policy}
 
 
